@@ -45,7 +45,7 @@ def shards(tier):
     return out
 
 
-FORMS = ["eq", "dnf", "table", "tuple", "qlist", "value", "value_tuple"]
+FORMS = ["eq", "dnf", "table", "tuple", "qlist", "value", "value_tuple", "value_zero", "pred_false"]
 
 
 def cases(shard):
@@ -85,6 +85,13 @@ def source(n, S, form):
         t = "Tuple[%s]" % ", ".join(["bool"] * n)
         body = " or ".join(minterm(s, n, "x") for s in S)
         return "def gfun(x: %s) -> Qint[2]:\n    return (2 if %s else 1)\n" % (t, body), 2, "tuple"
+    if form == "value_zero":
+        # search g(x) == 0 (a falsy target value)
+        tb = ", ".join("0" if r in S else str((1, 2, 3)[r % 3]) for r in range(N))
+        return "def gfun(x: Qint[%d]) -> Qint[2]:\n    c = [%s]\n    return c[x]\n" % (n, tb), 0, "int"
+    if form == "pred_false":
+        # search the zeros of a predicate: Grover(f, False)
+        return "def gfun(x: Qint[%d]) -> bool:\n    return not (%s)\n" % (n, " or ".join("x == %d" % s for s in S)), False, "int"
     raise ValueError(form)
 
 
@@ -110,6 +117,9 @@ def run_case(case):
     want = sum(1 << r for r in S)
     if element is None:
         got = env.get(qf.returns.bitvec[0])
+    elif isinstance(element, bool):
+        b = env.get(qf.returns.bitvec[0])
+        got = None if b is None else (b if element else (M ^ b))
     else:
         bits = [env.get(b) for b in qf.returns.bitvec]
         if any(b is None for b in bits):
